@@ -419,6 +419,8 @@ func NewDecoder(n int, sep string, r io.Reader) (sts.PayloadDecoder, error) {
 	}
 	pr, pw := io.Pipe()
 	go func() {
+		// Without this a header shorter than announced is waited for forever
+		defer pw.Close()
 		if n > 0 {
 			_, _ = io.CopyN(pw, r, int64(n))
 		} else {
